@@ -79,3 +79,20 @@ Definition x_res_limits (r : Resf) (aux : float) (cb db : option float) : list o
   res_outs (res_set_cur_pwr_out_max r aux cb db) res_outs_.
 Definition x_loco_step (l : Locof) (pwr dt : float) (on : bool) : list out :=
   res_outs (loco_sim_solve_step l pwr dt on) loco_outs.
+
+(* ---- consist ---- *)
+From AltModel Require Import Consist.
+Notation Consistf := (Consist (F:=float)).
+
+Definition cstate_outs (s : ConsistState (F:=float)) : list out :=
+  [OF (cs_pwr_out_max s); OF (cs_pwr_rate_out_max s); OF (cs_pwr_regen_max s);
+   OF (cs_pwr_out_max_reves s); OF (cs_pwr_out_deficit s); OF (cs_pwr_out_max_non_reves s);
+   OF (cs_pwr_regen_deficit s); OF (cs_pwr_dyn_brake_max s); OF (cs_pwr_out_req s);
+   OF (cs_pwr_out s); OF (cs_pwr_reves s); OF (cs_pwr_fuel s); OF (cs_energy_out s);
+   OF (cs_energy_out_pos s); OF (cs_energy_out_neg s); OF (cs_energy_res s); OF (cs_energy_fuel s)].
+
+Definition consist_outs (c : Consistf) : list out :=
+  cstate_outs (cn_state c) ++ flat_map loco_outs (cn_locos c).
+
+Definition x_consist_step (c : Consistf) (pwr dt : float) : list out :=
+  res_outs (consist_sim_solve_step c pwr dt) consist_outs.
